@@ -124,14 +124,39 @@ UNITS.append(dict(name="c17_hybridization_clear", template="C17/hybrid_clear.c",
                                        (r"stateProperty_\[(\w+)\] = nullptr;", r"SP[\1] = NIL;", 0)])],
                   canaries=[dict(name="graph_kept", where="body:clear", rx=r"g_nv = 0;", repl="")]))
 
+# ---------------------------------------------------------------- PathSimplifier::ropeShortcutPath (bounded)
+ROPE_RULES = [
+    (r"const base::SpaceInformationPtr &si = path\.getSpaceInformation\(\);", "", 0), (r"std::vector<base::State \*> &states = path\.getStates\(\);", "", 0), (r"path\.getStateCount\(\)", "states_size", 0),
+    (r"std::size_t numIntermediateStates = static_cast<std::size_t>\(floor\(dist / delta\)\);", "size_t numIntermediateStates = FLOORDIV(dist, delta);", 0),
+    (r"std::size_t numIntermediateStates = \(int\)\(floor\(dist / delta\)\);", "size_t numIntermediateStates = FLOORDIV(dist, delta);", 0), (r"std::size_t", "size_t", 0),
+    (r"std::vector<base::Cost> costs\(states\.size\(\), obj_->identityCost\(\)\);", "INIT_COSTS();", 0), (r"costs\.resize\(states\.size\(\), obj_->identityCost\(\)\);", "RESIZE_COSTS();", 0),
+    (r"ompl::base::Cost equivalenceCost\(equivalenceTolerance \* delta\);", "long equivalenceCost = (long)(equivalenceTolerance * delta);", 0),
+    (r"states\.insert\(states\.begin\(\) \+ ([^,]+), newState\);", r"INSERT(\1, newState);", 0), (r"states\.erase\(states\.begin\(\) \+ ([^,]+), states\.begin\(\) \+ ([^)]+)\);", r"ERASE(\1, \2);", 0),
+    (r"states\.size\(\)", "states_size", 0), (r"costs\.size\(\)", "costs_size", 0),
+    (r"\bstates\[([^\]]+)\]", r"states[IDX_S(\1)]", 0), (r"\bcosts\[([^\]]+)\]", r"costs[IDX_C(\1)]", 0),
+    (r"obj_->combineCosts\(", "COMBINE(", 0), (r"obj_->subtractCosts\(", "SUBTRACT(", 0), (r"obj_->motionCost\(", "MCOST(", 0), (r"obj_->isCostBetterThan\(", "BETTER(", 0), (r"base::Cost (\w+) = ", r"long \1 = ", 0),
+    (r"base::State \*newState = si->allocState\(\);", "SRef newState = ALLOC();", 0), (r"si->getStateSpace\(\)->interpolate\(", "INTERP(", 0), (r"si->distance\(", "DIST(", 0), (r"si->checkMotion\(", "CM(", 0), (r"si->freeState\(", "FREE(", 0),
+]
+ROPE_SRC = [dict(name="rope_densify", file=PS, begin=r"for \(std::size_t i = 0; i < states\.size\(\) - 1; \+\+i\)\s*\{\s*double dist = si->distance\(states\[i\], states\[i \+ 1\]\);", end=r"\}\s*std::vector<base::Cost> costs\(states\.size\(\), obj_->identityCost\(\)\);\s*for \(std::size_t i = 1; i < costs\.size\(\); \+\+i\)",
+                 rules=[(r"^for \(std::size_t i = 0; i < states\.size\(\) - 1; \+\+i\)\s*\{", "{ ", 0)] + ROPE_RULES + [(r"$", " return 0; }", 0)], wrap_braces=False, loops={"allow_uncontracted": True}),
+            dict(name="rope_shortcut", file=PS, begin=r"base::Cost shortcutCost = obj_->motionCost\(states\[i\], states\[j\]\);", end=r"i = -1;\s*break;", rules=[(r"return result;", "return 1;", 0), (r"\bbreak;", "return 2;", 0)] + ROPE_RULES + [(r"^", "{ ", 0), (r"$", " } return 3; }", 0)],
+                 wrap_braces=False, loops={"allow_uncontracted": True})]
+for nm, ent, can in (("c17_simplifier_rope_densify_step", "h_rope_densify", [dict(name="interpolates_towards_the_wrong_state", where="body:rope_densify", rx=r"states\[IDX_S\(i \+ 1 \+ j\)\], t", repl="states[IDX_S(i + 1)], t")]),
+                     ("c17_simplifier_rope_shortcut_block", "h_rope_shortcut", [dict(name="costs_not_updated_after_a_shortcut", where="body:rope_shortcut", rx=r"for \(size_t k = i \+ 1; k < costs_size; \+\+k\)", repl="for (size_t k = i + 2; k < costs_size; ++k)"),
+                                                                               dict(name="frees_the_far_end", where="body:rope_shortcut", rx=r"for \(size_t k = i \+ 1; k < j; \+\+k\)", repl="for (size_t k = i + 1; k <= j; ++k)")])):
+    UNITS.append(dict(name=nm, template="C17/rope.c", mode="plain", entry=ent, flags=[f for f in PFL if f != "--conversion-check"], unwind=9, level="bounded", backend="minisat", timeout=1800, sources=ROPE_SRC,
+                      bound="inductive step from an arbitrary path of <= 5 states, <= 2 interpolated states per motion; additive objective with non-negative motion costs <= 2^40", functions=["ompl::geometric::PathSimplifier::ropeShortcutPath (" + ("densification of one motion" if "densify" in nm else "shortcut block") + ")"], canaries=can, defines=dict(NMAX=5)))
+
 ASSUMPTIONS = ["the state vector is modelled as the identity sequence; getMotionStates(s1,s2,block,ns,false,true) yields exactly ns interior states (its own contract, not verified here)",
                "(int)floor(0.5 + count*segLen/remaining) is an arbitrary int below INT_MAX: for a zero-length path the operand is NaN and the conversion is undefined behaviour in C++ (x86 yields INT_MIN, which the code tolerates); recorded as an assumption"]
 TRUSTED = ["extraction rewrite tables of units/C17.py", "stubs in units/C17/pathgeom.c", "CBMC 6.11 DFCC + cadical/minisat"]
-NOT_COVERED = ["findBetterGoal: that the interpolation parameter (t - d[start]) / (d[end] - d[start]) lies in [0,1] (floating-point division: no back end finished)", "PathSimplifier: ropeShortcutPath, partialShortcutPath, perturbPath, simplify (reduceVertices, collapseCloseVertices, smoothBSpline and findBetterGoal are checked bounded: <= 5 states, <= 2 steps); PathHybridization; every 'never longer / never worse' cost clause (exact-arithmetic)",
+NOT_COVERED = ["findBetterGoal: that the interpolation parameter (t - d[start]) / (d[end] - d[start]) lies in [0,1] (floating-point division: no back end finished)", "PathSimplifier: partialShortcutPath, perturbPath, simplify; ropeShortcutPath only as two inductive steps (its loop structure: restart after a shortcut, early exits, is not covered); (reduceVertices, collapseCloseVertices, smoothBSpline and findBetterGoal are checked bounded: <= 5 states, <= 2 steps); PathHybridization; every 'never longer / never worse' cost clause (exact-arithmetic)",
                "SpaceInformation::getMotionStates, PathGeometric::interpolate() (no-argument form), 'length unchanged' by densification"]
 
 MISC_CPPS = ['src/ompl/geometric/src/PathGeometric.cpp']
 NATIVE = [
+    dict(name="c17_rope_native", driver="native/c17_rope_native.cpp", link_ompl=True, unit_cpps=["src/ompl/geometric/src/PathSimplifier.cpp"], extra=["-D_GLIBCXX_ASSERTIONS"],
+         args=lambda tier, seed: [seed, 200 if tier == "quick" else 20000], timeout=900),
     dict(name="c17_native_search", driver="native/misc_native.cpp", link_ompl=True, unit_cpps=MISC_CPPS, args=lambda tier, seed: ["c17", seed, 2000 if tier == "quick" else 200000], timeout=900),
 ]
 
